@@ -24,7 +24,7 @@ CONF = {
                              ('struct-deep', ('H_E', 'M_E1', 'T_E1', 'O_E', 9, 5), 60000, (20000, 50)),
                              ('struct-macro-ovr', ('H_E', 'M_E2', 'T_E1', 'O_E0', 3, 4), 40000),
                              ('struct-one-ovr', ('H_E1', 'M_E1', 'T_E1', 'O_E0', 4, 4), 30000),
-                             ('loops-sub', ('H_E', 'M_E0', 'NoGates', 'O_LS', 9, 5), 100000)]),
+                             ('loops-sub', ('H_E', 'M_E0', 'NoGates', 'O_LS', 8, 4), 60000)]),
     'gates': dict(quick=[('gates-wide', ('H_G', 'M_G', 'T_G', 'O_G', 3, 3, 'NoGates'), 3000),
                          ('gates-deep', ('H_G', 'M_E0', 'T_G2', 'O_G2', 5, 2, 'NoGates'), 2000),
                          ('gates-sim', ('H_G', 'M_G', 'T_G', 'O_G', 9, 4, 'NoGates'), 2500, (700, 40)),
